@@ -176,3 +176,60 @@ func (c *Ctx) checkParserVerdicts(r *Report, rule string) {
 	}
 	r.Floor(rule, 3)
 }
+
+// checkModifyResultUse: rule C07.R15, the node ast.Modify hands back is used only when there is one.
+//
+// ast.Modify(node, f) returns (nil, false) when a callback gives up. Every method invoked on its first
+// result, outside of package ast, lies on the true edge of its second result or on the non-nil edge of a test
+// of the first (setupRegister pretty-printed it for the verbose log before looking at ok).
+func (c *Ctx) checkModifyResultUse(r *Report, rule string) {
+	modify := c.Fn("ast", "Modify")
+	n := 0
+	for _, fn := range c.ModuleSSAFuncs() {
+		if fn.Pkg != nil && shortPkg(fn.Pkg.Pkg) == "ast" {
+			continue
+		}
+		fname := ssaFuncName(fn)
+		for _, ci := range callsIn(fn, modify) {
+			call, ok := ci.(*ssa.Call)
+			if !ok {
+				continue
+			}
+			node, okv := extractOf(call, 0), extractOf(call, 1)
+			if node == nil {
+				continue
+			}
+			k := 0
+			for _, ref := range *node.Referrers() {
+				inv, ok := ref.(*ssa.Call)
+				if !ok || !inv.Common().IsInvoke() || inv.Common().Value != ssa.Value(node) {
+					continue
+				}
+				n++
+				k++
+				desc := "method call #" + itoa(k) + " on the result of ast.Modify is guarded"
+				guarded := false
+				for _, cc := range controlling(inv.Block()) {
+					if okv != nil && cc.Cond == ssa.Value(okv) && cc.Edge == 0 {
+						guarded = true
+					}
+					for _, sub := range expandCond(cc.If, cc.Cond, cc.Edge, 0) {
+						if bin, ok := sub.Cond.(*ssa.BinOp); ok && bin.X == ssa.Value(node) && isNilConst(bin.Y) {
+							if (bin.Op == token.NEQ && sub.Edge == 0) || (bin.Op == token.EQL && sub.Edge == 1) {
+								guarded = true
+							}
+						}
+						if okv != nil && sub.Cond == ssa.Value(okv) && sub.Edge == 0 {
+							guarded = true
+						}
+					}
+				}
+				r.Check(guarded, rule, fname, desc, c.Pos(inv.Pos()),
+					"a method is invoked on the node returned by ast.Modify where neither its ok result was found true nor the node non-nil: Modify returns nil when a callback gives up, so this is a nil dereference")
+			}
+		}
+	}
+	if n == 0 {
+		r.OkWhy(rule, "eval", "no method is invoked on a result of ast.Modify outside of package ast", "", "nothing to guard")
+	}
+}
